@@ -129,10 +129,14 @@ def run(rec):
                     rec.check(np.allclose(Hr, Hd, atol=1e-7 * scale), 'to_TermList->from_term_list:dense', f'max dev {np.abs(Hr - Hd).max()}', inp)
             # plus identity
             al, be = float(rng.standard_normal()), float(rng.standard_normal())
-            ok, Hpi = rec.guarded('plus_identity:exception', lambda: H.plus_identity(al, be), inp)
-            if ok:
-                rec.check(np.allclose(mpo_dense(Hpi, sites), al * np.eye(len(Hd)) + be * Hd, atol=tol * scale), 'plus_identity:dense',
-                          'alpha*Id + beta*H', inp)
+            lo = int(rng.integers(0, L))
+            hi = int(rng.integers(lo, L))
+            for pi_sites in ([0], list(range(L)), list(range(lo, hi + 1))):
+                be_ = abs(be) + 0.3      # (a root of beta is taken per modified site)
+                ok, Hpi = rec.guarded('plus_identity:exception', lambda: H.plus_identity(al, be_, sites=pi_sites), dict(inp, pi_sites=pi_sites))
+                if ok:
+                    rec.check(np.allclose(mpo_dense(Hpi, sites), al * np.eye(len(Hd)) + be_ * Hd, atol=1e-7 * scale), 'plus_identity:dense',
+                              f'alpha*Id + beta*H with sites={pi_sites}', dict(inp, pi_sites=pi_sites, alpha=al, beta=be_))
             # applying the MPO
             exp = Hd @ vv
             if np.linalg.norm(exp) > 1e-8:
